@@ -5,6 +5,7 @@ import MosnVerif.Model.HpackInt
 import MosnVerif.Model.H2Frame
 import MosnVerif.Model.HpackTable
 import MosnVerif.Model.H2Seq
+import MosnVerif.Model.HpackEmit
 /-! `mosnmodel` side of C18 (core Lean only): evaluates the models on each case line and the executable property
 predicates on the implementation's output. -/
 namespace MosnVerif.Drive.C18
@@ -467,6 +468,100 @@ def hdrCase (items : String) (impl : List String) : String :=
     let a := its.foldl hdrStep a0
     verdict a.agree a.spec (joinWith "" a.log.reverse)
   | _, _ => "E E bad-hdr"
+
+/-! ### hdrcut: header blocks decoded while the emit callback switches emitting off mid-block -/
+section hdrcut
+open MosnVerif.Model.HpackEmit
+
+inductive CItem
+  | boundary (limit : Nat) | tsize (v : Nat) | field (f : Field)
+
+def parseCItem (t : String) : Option CItem :=
+  match t.front with
+  | 'B' => (t.drop 1).toString.toNat?.map CItem.boundary
+  | 't' => (t.drop 1).toString.toNat?.map CItem.tsize
+  | 'f' => match t.splitOn ":" with
+    | [fl, n, v] => match unhex n, unhex v with
+      | some n, some v => some (.field { name := n, value := v, sensitive := fl == "f1" })
+      | _, _ => none
+    | _ => none
+  | _ => none
+
+/-- the harness / framer callback's notion of an invalid field in this kind: an upper-case letter in the name -/
+def cutInvalid (f : Field) : Bool := f.name.any (fun b => 65 ≤ b.toNat && b.toNat ≤ 90)
+
+def tabTok (t : DynTab) : String :=
+  let ents := if t.ents.isEmpty then "-" else joinWith "+" (t.ents.map (fun e => s!"{hex e.1}:{hex e.2}"))
+  s!"{t.size}/{t.maxSize}/{ents}"
+
+/-- declarative reference of what a block hands over under header-list limit `l`: the fields before the first invalid
+or oversized one, and the flag -/
+def wantKept (l : Int) : List Field → List Field → String
+  | [], acc => fieldsTok acc.reverse ++ "/-"
+  | f :: r, acc =>
+    if cutInvalid f then fieldsTok acc.reverse ++ "/I"
+    else
+      let size : Int := f.name.length + f.value.length + 32
+      if size > l then fieldsTok acc.reverse ++ "/T" else wantKept (l - size) r (f :: acc)
+
+structure CAcc where
+  enc : Enc
+  dec : DecE
+  cur : Bytes
+  fields : List Field  -- reversed
+  cols : List (List String)  -- remaining implementation tokens: blocks, dec, tab, xdec, mfr, mtab
+  agree : Bool
+  spec : Bool
+  dead : Bool
+  log : List String
+
+def heads (cols : List (List String)) : Option (List String × List (List String)) :=
+  if cols.all (fun c => !c.isEmpty) then some (cols.map (fun c => c.headD ""), cols.map List.tail) else none
+
+def cutStep (a : CAcc) : CItem → CAcc
+  | .tsize v => if a.dead then a else { a with enc := a.enc.setMaxDynamicTableSize v }
+  | .field f => if a.dead then a else
+      let (e, b) := a.enc.writeField f
+      { a with enc := e, cur := a.cur ++ b, fields := f :: a.fields }
+  | .boundary limit => if a.dead then a else
+    match heads a.cols with
+    | some ([blk, dk, tk, xk, fk, ftk], rest) =>
+      let bytesOk := hex a.cur == blk
+      let d0 : DecE := { a.dec.startBlock with base := { a.dec.startBlock.base with maxStrLen := limit } }
+      let st0 : FrSt := { remain := limit, kept := [], invalid := false, truncated := false }
+      let (dec', mdec, mtab) := match unhex blk with
+        | some b => match d0.decodeFullP codePolicy (framerCallback cutInvalid) st0 b with
+          | .ok (d, st, _) =>
+            (d, fieldsTok st.kept.reverse ++ "/" ++ (if st.invalid then "I" else if st.truncated then "T" else "-"), tabTok d.base.tab)
+          | .error .panic => (a.dec, "panic", tabTok a.dec.base.tab)
+          | .error (.dec _) => (a.dec, "err", "")
+        | none => (a.dec, "bad", "")
+      let fs := a.fields.reverse
+      let want := wantKept limit fs []
+      let wantTab := tabTok a.enc.tab
+      let mfrWant := if mdec.endsWith "/I" then "?/I" else mdec
+      let isErr := dk == "err"
+      -- an error needs a reason: some string of the block longer than the limit (= maxStrLen)
+      let longStr := fs.any (fun f => decide (f.name.length > limit) || decide (f.value.length > limit))
+      let agree := bytesOk && mdec == dk && (isErr || (mtab == tk && mtab == ftk)) && fk == mfrWant
+      let spec := if isErr then longStr && xk == "err"
+                  else dk == want && tk == wantTab && xk == want && ftk == wantTab &&
+                       (fk == want || (want.endsWith "/I" && fk == "?/I"))
+      { a with dec := dec', cur := [], fields := [], cols := rest, agree := a.agree && agree, spec := a.spec && spec,
+               dead := isErr || mdec == "panic" || mdec == "bad",
+               log := (s!"{if bytesOk then "b" else "B"}{mdec}|{mtab}") :: a.log }
+    | _ => { a with agree := false, spec := false, dead := true, log := "missing-block" :: a.log }
+
+def hdrCutCase (items : String) (impl : List String) : String :=
+  match (items.splitOn ",").mapM parseCItem, impl with
+  | some its, [blocks, dec, tab, xdec, mfr, mtab] =>
+    let a0 : CAcc := { enc := Enc.new, dec := DecE.new 4096, cur := [], fields := [],
+                       cols := [blocks, dec, tab, xdec, mfr, mtab].map (·.splitOn ","),
+                       agree := true, spec := true, dead := false, log := [] }
+    let a := its.foldl cutStep a0
+    verdict a.agree a.spec (joinWith "," a.log.reverse)
+  | _, _ => "E E bad-hdrcut"
+end hdrcut
 end hpack
 
 
@@ -568,6 +663,7 @@ def run (caseToks impl : List String) : String :=
   | ["str", h] => strCase h impl
   | ["strdec", m, h] => strDec m h impl
   | ["hdr", _, items] => hdrCase items impl
+  | ["hdrcut", items] => hdrCutCase items impl
   | ["frames", dir, mal, _, specs] => framesCase dir mal specs impl
   | _ => "E E unknown-kind"
 
